@@ -256,7 +256,7 @@ class CoroStart(Awaitable[T_co]):
         out_value, exc = self.start_result
         self.start_result = None
         # process any exception generated by the initial start
-        if exc:
+        if exc is not None:
             if isinstance(exc, StopIteration):
                 return cast(T_co, exc.value)
             raise exc
@@ -371,7 +371,7 @@ class CoroStart(Awaitable[T_co]):
         Returns the result or raises the exception
         """
         exc = self.start_result and self.start_result[1]
-        if not exc:
+        if exc is None:
             raise asyncio.InvalidStateError("CoroStart: coroutine not done()")
         if isinstance(exc, StopIteration):
             return cast(T_co, exc.value)
@@ -404,7 +404,7 @@ class CoroStart(Awaitable[T_co]):
             raise RuntimeError("CoroStart: coroutine not done()")
         assert self.start_result is not None
         exc = self.start_result[1]
-        assert exc
+        assert exc is not None
         future = asyncio.get_running_loop().create_future()
         if isinstance(exc, StopIteration):
             future.set_result(exc.value)
